@@ -42,9 +42,14 @@ def gen_coeff(rng, tag):
     return s
 
 
-def gen_fragment(rng, cfg, name, natoms=None, cell=None, idiom=None, elements=None):
-    """Fragment spec: the arguments of one Atoms(...) construction, fully resolved (explicit type tables)."""
+def gen_fragment(rng, cfg, name, natoms=None, cell=None, idiom=None, elements=None, atom_elements=None, positions=None,
+                 label_scheme=None):
+    """Fragment spec: the arguments of one Atoms(...) construction, fully resolved (explicit type tables).
+    atom_elements/positions: per-atom elements and coordinates prescribed by the caller (patterns)."""
     n = rng.randint(1, 10) if natoms is None else natoms
+    if atom_elements is not None:
+        n = len(atom_elements)
+        idiom = "explicit"
     els_pool = elements or rng.sample(SAFE_ELEMENTS, rng.randint(1, 4))
     idiom = idiom or rng.choice(["explicit", "explicit", "elements_list", "elements_string"])
     fs = {"name": name, "idiom": idiom, "cell": cell}
@@ -57,8 +62,25 @@ def gen_fragment(rng, cfg, name, natoms=None, cell=None, idiom=None, elements=No
         pos = np.round(pos, 3)
     if rng.random() < 0.15 and n:
         pos[rng.randrange(n)] *= -1.0          # negative coordinates are legal
+    if positions is not None:
+        pos = np.array(positions, float).reshape(-1, 3)
     fs["positions"] = pos.tolist()
-    if idiom == "explicit":
+    if atom_elements is not None:
+        from mofun.atomic_masses import ATOMIC_MASSES
+        type_of, types, t_el = {}, [], []
+        nvar = rng.choice([1, 1, 2])
+        for e in atom_elements:
+            key = (e, rng.randrange(nvar))
+            if key not in type_of:
+                type_of[key] = len(t_el)
+                t_el.append(e)
+            types.append(type_of[key])
+        if label_scheme:
+            t_lab = [label_scheme % (e, 1 + sum(1 for x in t_el[:i] if x == e)) for i, e in enumerate(t_el)]
+        else:
+            t_lab = ["%s_%s%d" % (e, name, i) for i, e in enumerate(t_el)]
+        t_mass = [round(ATOMIC_MASSES[e] + 0.0007 * (i + 1), 4) for i, e in enumerate(t_el)]
+    elif idiom == "explicit":
         ntypes = rng.randint(1, min(4, max(1, n)))
         t_el = [rng.choice(els_pool) for _ in range(ntypes)]
         types = [rng.randrange(ntypes) for _ in range(n)]
